@@ -301,7 +301,7 @@ impl Monitor for C16 {
          depths, 2->2 gate, self-dependent operation, cycle with tail, cycle unconnected to outputs, zero-arity operation) then seeded single-writer circuits over a test \
          signature (add, mul, neg, copy 1->n, discard, const, 3-ary mux, 2->2 divmod, xor, and, generic m->n hash gates; fan-out by shared nodes, repeated source nodes, \
          shuffled node/edge numbering), the same circuits with a feedback wire added, and arbitrary small diagrams (cyclic, multi-writer). Edge labels carry a unique id; the \
-         apply callback logs every batch. Oracle: reference interpreter in topological order on the plain model; log must contain each hyperedge exactly once with the \
+         apply callback logs every batch. Oracle: reference interpreter in topological order on the plain model; log must contain each hyperedge at most once -- and each hyperedge the output interface depends on exactly once -- with the \
          reference input values and after everything it depends on; renumbered copy gives the same output; None iff the dependency relation is cyclic. Acyclic diagrams with \
          a node written twice are counted but not judged; values read from unwritten nodes are not judged. non-trivial = judged circuit with operations at >=2 depths; \
          distinct = hash of (diagram, inputs). Also: circuits with 17-48 operations ready at once, chains of 200-500 operations (a third of them closed into a cycle), the same circuits evaluated over String values, and the event log of the renumbered run."
